@@ -1,6 +1,6 @@
 #!/bin/bash
 # usage: c19-campaign.sh <exe> <outdir> <secs> [extra args...]   (env C19_ONLY etc. are passed through)
-. /var/tmp/c19-env.sh
+. /verif/props/C19/tools/c19-env.sh
 EXE=$1; OUT=$2; SECS=$3; shift 3
 rm -rf $OUT; mkdir -p $OUT; cd $OUT
 for sh in $(seq 0 15); do
